@@ -66,4 +66,5 @@ bc0d713 C10
 ba336bb C19 C10
 2d0f122 C16
 1adc0f1 C15
+82a475f C09
 LIST
